@@ -11,6 +11,7 @@ mod c02;
 mod c19;
 mod c05;
 mod c06;
+mod c08;
 mod c10;
 mod c12;
 mod c11;
@@ -24,9 +25,19 @@ use common::*;
 
 fn main() {
   let args: Vec<String> = std::env::args().collect();
-  if args.len() < 5 && !(args.len() >= 2 && (args[1] == "eval" || args[1] == "doc" || args[1] == "fsm" || args[1] == "bc" || args[1] == "sess" || args[1] == "steps")) {
+  if args.len() < 5 && !(args.len() >= 2 && (args[1] == "eval" || args[1] == "fmtp" || args[1] == "doc" || args[1] == "fsm" || args[1] == "bc" || args[1] == "sess" || args[1] == "steps")) {
     eprintln!("usage: mvh <prop> <seed> <quick|thorough|replay> <outdir> [replay-file]");
     std::process::exit(2);
+  }
+  if args.len() >= 2 && args[1] == "fmtp" {
+    std::panic::set_hook(Box::new(|_| {}));
+    let mut text = String::new();
+    use std::io::Read;
+    std::io::stdin().read_to_string(&mut text).unwrap();
+    for l in text.lines() { if l.trim().is_empty() { continue; } let src = l.replace("\\n", "\n"); let o = c08::run(&src, false);
+      let f = o.split('|').next().unwrap_or("").trim_start_matches("F=").to_string();
+      println!("{:40} => [{}] {}", l, String::from_utf8(c07::unhex(&f)).unwrap_or_default().replace('\n', "\\n"), o.splitn(2, '|').nth(1).unwrap_or("")); }
+    return;
   }
   if args.len() >= 2 && args[1] == "doc" {
     std::panic::set_hook(Box::new(|_| {}));
@@ -132,6 +143,7 @@ fn main() {
     "C14" => (c14::generate, c14::exec),
     "C16" => (c16::generate, c16::exec),
     "C06" => (c06::generate, c06::exec),
+    "C08" => (c08::generate, c08::exec),
     "C10" => (c10::generate, c10::exec),
     "C17" => (c17::generate, c17::exec),
     "C18" => (c18::generate, c18::exec),
